@@ -10,7 +10,7 @@ from core import Case
 PROP = 'C14'
 COQ_TARGETS = ['theories/DeferredFacts.vo', 'theories/SchedFacts.vo', 'theories/SchedThms.vo', 'theories/SchedPassive.vo', 'theories/SchedOrder.vo', 'theories/SchedRun.vo', 'theories/SchedC14.vo']
 COQ_IMPORTS = 'From Bac Require Import Base Deferred Sched.'
-RULE = ('cases: one case = the whole observable outcome (event trace of fire/call/raise/API-error, heap in pop order with '
+RULE_BASE = ('cases: one case = the whole observable outcome (event trace of fire/call/raise/API-error, heap in pop order with '
         'counters, isScheduled/taskTime of every task, deferredFns) of a history run on the real TaskManager under a virtual '
         'clock and on the model.  (A) every op sequence of length <= 3 (quick) / <= 4 plus 30% of length 5 (thorough) over 2 one-shot tasks and a '
         '15-letter alphabet {install at 1|2, install after 1, re-install, suspend, resume} x task + {advance 1, poll, run_once} '
@@ -24,7 +24,9 @@ TRUSTED = ['models coq/theories/Sched.v, Deferred.v written by hand after task.p
            'heapq (pop order = sorted order of (time, counter)) and binary64 arithmetic of RecurringTask.install_task: modelled exactly '
            '(rationals), compared by tick / slot index only',
            'asyncore.loop(timeout=0, count=1) with only the TaskManager trigger registered returns without side effects on the schedule']
-ASSUMPTIONS = ['single thread; callbacks only record, defer and raise (they do not install or suspend tasks themselves)',
+RULE = RULE_BASE
+ASSUMPTIONS = ['single thread; callbacks record, defer functions, call the _Task API (install/suspend/resume of any task) and raise; nothing else',
+               'symmetry reduction (S): the implementation is a function of the state captured by impl_state_key (heap array, counters up to order, flags, task times relative to the clock, deferred queue) and is invariant under renaming of identically configured tasks and under time translation',
                'core.run is driven with spin=0 and stopped (core.stop) by the clock hook once nothing is due and nothing is deferred',
                'recurring-task scenarios keep every clock reading at least 5 us away from any other pending due time unless it is that time itself']
 
@@ -1003,6 +1005,12 @@ def cases(rng, tier):
             g = gen_recurring_acts(rng, epoch)
             if g is not None:
                 out.append(mk_case('C-recurring-actions', g[0], g[1], mode, JIT_B))
+    global RULE
+    RULE = RULE_BASE + '  EXHAUSTIVE in this run: (S) ' + EXHAUSTIVE_NOTE['S'] + ('; (A) every history of length <= %d over 2 one-shot tasks and the '
+            '15 absolute letters without symmetry reduction%s; (D) every raising subset of flat deferred batches of <= 6 and of every forest of <= %d '
+            'functions, through run_once and run; (C) every pair of single-action callbacks over 2 tasks (15 x 15 - 1 configurations) with %s.'
+            % ((4, ' plus 30% of length 5', 5, 'every prelude of the list x every letter') if big else
+               (3, ' plus a quarter of length 4', 4, 'the 5 multi-task preludes and 8% of the one-letter preludes x every letter')))
     # (A) random long histories
     for _ in range(40 if tier != 'thorough' else 600):
         cfg, ops = random_history_A(rng)
@@ -1055,6 +1063,15 @@ def cases(rng, tier):
 
 
 # ------------------------------------------------------------------ direct predicate (implementation only)
+def has_acts(cfg, ops):
+    def walk(ds):
+        for d in ds:
+            yield d
+            yield from walk(d[2])
+    return any(acts_of(t) for t in cfg) or any(acts_of(d) for t in cfg for d in walk(t[2])) or \
+        any(acts_of(d) for o in ops if o[0] == 'defer' for d in walk([o[1]]))
+
+
 def check_history(cfg, ops, mode, fails, stats):
     """Weakest reading of C14 on one history.  Bookkeeping (not a scheduler): which task is pending
     with which due time and installation rank, which deferred functions were submitted."""
@@ -1071,13 +1088,46 @@ def check_history(cfg, ops, mode, fails, stats):
         d = dict(desc); d['kind'] = kind; d.update(kw)
         fails.append(d)
 
+    acted = [False]          # a callback installed something during the current op
+    rearmed = []             # recurring tasks re-installed by process_task although their callback suspended them
+
     def absorb(opname):
-        """process the new trace entries produced by one op"""
+        """process the new trace entries produced by one op, in order: firings, the scheduling actions of the
+        callbacks (they change what is pending), deferred calls"""
         nonlocal seen_trace, fired_any
         new = im.trace[seen_trace:]
         seen_trace = len(im.trace)
         raised = False
+        cur = [None, False, False]          # callback being followed: ('task', i) / ('dfn', id); an action failed; suspended itself
+
+        def close():
+            nonlocal raised
+            if cur[0] is not None and cur[0][0] == 'task':
+                i = cur[0][1]
+                if cfg[i][1] or cur[1]:
+                    raised = True
+                elif cfg[i][0][0] == 'rec':
+                    if cur[2]:
+                        rearmed.append(i)
+                    pending[i] = [None, next(rank)]          # process_task re-installs it
+            cur[0], cur[1], cur[2] = None, False, False
+
         for e in new:
+            if e[0] == 'act':
+                _, kind, j, ok, tt = e
+                if not ok:
+                    cur[1] = True
+                elif kind == 'suspend':
+                    pending.pop(j, None)
+                    if cur[0] == ('task', j):
+                        cur[2] = True
+                else:
+                    pending[j] = [tt, next(rank)]
+                    acted[0] = True
+                    if cur[0] == ('task', j):
+                        cur[2] = False
+                continue
+            close()
             if e[0] == 'fire':
                 fired_any = True
                 _, i, due, at = e
@@ -1096,18 +1146,22 @@ def check_history(cfg, ops, mode, fails, stats):
                         fail('fired-out-of-order', task=i, before=j, due=repr(due), other_due=repr(dj))
                 del pending[i]
                 last_fire_at[i] = at
-                if cfg[i][1]:
-                    raised = True
-                elif cfg[i][0][0] == 'rec':
-                    pending[i] = [None, next(rank)]
+                cur[0] = ('task', i)
             elif e[0] == 'call':
                 calls_seen.append(e[1])
+                cur[0] = ('dfn', e[1])
+        close()
         # the recurring tasks re-installed during this op now show their next time
         for i, p in pending.items():
             if p[0] is None:
                 p[0] = im.tasks[i].taskTime
                 if not (p[0] > last_fire_at[i]):
                     fail('recurring-next-not-after-fire', task=i, next=repr(p[0]), fired_at=repr(last_fire_at[i]))
+        queued = {t.i for (_, _, t) in im.tm.tasks}
+        for i in rearmed:
+            if i in queued:
+                fail('recurring-rearmed-after-self-suspend', task=i, op=opname)
+        del rearmed[:]
         return raised
 
     for o in ops:
@@ -1127,11 +1181,13 @@ def check_history(cfg, ops, mode, fails, stats):
                 fail('recurring-first-slot-not-strictly-after-install', task=o[1])
         elif k == 'suspend':
             pending.pop(o[1], None)
+        acted[0] = False
         raised = absorb(k)
         now = im.NOW[0]
         if k in ('runonce', 'run', 'poll'):
             stats['evaluations'] += 1
-            due_left = [j for j, (dj, rj) in pending.items() if dj is not None and dj <= now]
+            # a callback that installs a due task in the last iteration legitimately leaves it for the next pass
+            due_left = [] if acted[0] else [j for j, (dj, rj) in pending.items() if dj is not None and dj <= now]
             if k == 'poll':
                 fired = [e for e in im.trace[before:] if e[0] == 'fire']
                 if len(fired) > 1:
@@ -1149,6 +1205,11 @@ def check_history(cfg, ops, mode, fails, stats):
             fail('task-queued-twice', heap=ids_in_heap)
         if sorted(ids_in_heap) != sorted(pending):
             fail('queue-differs-from-pending', heap=sorted(ids_in_heap), pending=sorted(pending))
+    if has_acts(cfg, ops):
+        # callbacks that re-install or suspend tasks: "everything fires exactly once in the end" is not implied
+        if fired_any or calls_seen:
+            stats['nontrivial'].add((repr(cfg), repr(ops)))
+        return im
     # flush: everything queued or due must run in the end, whatever raised before
     horizon = max([p[0] for p in pending.values() if p[0] is not None] + [im.NOW[0]])
     im.NOW[0] = horizon
@@ -1273,6 +1334,34 @@ def _direct(rng, tier, focus, fails, stats, samples):
         cfg, ops = random_history_A(rng)
         check_history(cfg, ops, 'int', fails, stats)
     samples.append({'direct': 'pending-set bookkeeping over random histories of length 200', 'alphabet': repr(alpha)})
+    # 3b. symmetry-reduced exploration of 4 tasks (every state reachable in <= 6 letters, then every letter)
+    plain4 = [ONE, ONE, ONE, ONE]
+    ralpha = rel_alphabet(4)
+    for key, seqs in explore(plain4, 6 if not big else 7).items():
+        for o in ralpha:
+            check_history(plain4, resolve_rel(list(seqs[0]) + [o]), 'int', fails, stats)
+    # 3c. callbacks with scheduling actions; the recorded finding first
+    selfsusp = [(('rec', 3 * TICKS_PER_S, 0), False, (), (('suspend', 0),))]
+    check_history(selfsusp, [('advance', 777, 777), ('reinstall', 0), ('todue',), ('poll',), ('todue',), ('poll',)], 'tick', fails, stats)
+    samples.append({'direct': 'recurring task whose callback suspends itself (finding C14-recurring-self-suspend-rearmed)', 'cfg': repr(selfsusp)})
+    single = [()] + [(a,) for a in act_alphabet(2)]
+    preludes = [(('install', 0, 1), ('install', 1, 1)), (('install', 1, 1), ('install', 0, 2)), (('install', 0, 1),)]
+    for a0 in single:
+        for a1 in single:
+            cfgc = [(('one',), False, (), a0), (('one',), False, (), a1)]
+            for pre in preludes:
+                for tail in ([('advance', 1), ('runonce',), ('advance', 1), ('runonce',)], [('advance', 2), ('run',)], [('advance', 1), ('poll',), ('poll',), ('advance', 3), ('poll',)]):
+                    ops = list(pre) + tail
+                    if not livelocks(cfgc, ops):
+                        check_history(cfgc, ops, 'int', fails, stats)
+    for _ in range(300 if not big else 3000):
+        g = random_history_C(rng)
+        if g is not None:
+            check_history(g[0], g[1], 'int', fails, stats)
+    for _ in range(100 if not big else 1000):
+        g = gen_recurring_acts(rng, rng.random() < 0.5)
+        if g is not None:
+            check_history(g[0], g[1], 'tick', fails, stats)
     # 4. recurring
     n = 0
     while n < (300 if not big else 5000):
@@ -1327,6 +1416,16 @@ def classify(failure):
     """C14-deferred-batch-lost (status fixed: suppresses nothing, only names the cause): the deferred calls
     differ from the submissions and the history submits a raising function among others"""
     import ast
+    if failure.get('kind') == 'recurring-rearmed-after-self-suspend':
+        # C14-recurring-self-suspend-rearmed: the task is recurring and its OWN callback suspends it
+        try:
+            cfg = ast.literal_eval(failure['cfg'])
+            t = cfg[failure['task']]
+        except Exception:
+            return None
+        if t[0][0] == 'rec' and ('suspend', failure['task']) in acts_of(t):
+            return 'C14-recurring-self-suspend-rearmed'
+        return None
     if failure.get('kind') == 'deferred-not-once-in-order':
         try:
             cfg, ops = ast.literal_eval(failure['cfg']), ast.literal_eval(failure['ops'])
